@@ -98,5 +98,8 @@ def register(reg):
         resp = eng.fresh(st, "ref:" + RESPONSE, "resp")
         eng.assume(st, resp.t > 0)
         eng.assume_alive(st, resp)
+        # every connection class puts the network stream into the response extensions
+        ext = eng.heap_read(st, resp, "Response.extensions")
+        eng.assume(st, dhas(ext.t, str_lit("network_stream")))
         ev.data["result"] = resp
         return resp
